@@ -46,4 +46,31 @@ SplitFrom(s, p, acc) ==
     ELSE SplitFrom(s, k.next, Append(acc, k))
 Split(s) == SplitFrom(s, 1, <<>>)
 Tags(s) == LET r == Split(s) IN [k \in 1..Len(r.pkts) |-> r.pkts[k].tag]
+
+\* ---- version 4 key packets (5.5.2): where the public fields end -----------------------------------
+RECURSIVE SkipMPIs(_, _, _)
+SkipMPIs(b, p, n) == IF n = 0 THEN p ELSE LET d == MPIDecAt(b, p) IN IF ~d.ok THEN 0 ELSE SkipMPIs(b, d.next, n - 1)
+\* index of the first octet after the public fields of a v4 key body, 0 if malformed / unknown algorithm
+PubEnd(b) ==
+  IF Len(b) < 6 \/ b[1] # 4 THEN 0
+  ELSE LET alg == b[6] IN
+    IF alg \in {1, 2, 3} THEN SkipMPIs(b, 7, 2)
+    ELSE IF alg = 17 THEN SkipMPIs(b, 7, 4)
+    ELSE IF alg \in {16, 20} THEN SkipMPIs(b, 7, 3)
+    ELSE IF alg \in {18, 19, 22} THEN
+      IF Len(b) < 7 \/ b[7] = 0 \/ b[7] = 255 \/ 7 + b[7] > Len(b) THEN 0
+      ELSE LET q == SkipMPIs(b, 8 + b[7], 1) IN
+        IF q = 0 THEN 0
+        ELSE IF alg # 18 THEN q
+        ELSE IF q > Len(b) \/ b[q] = 0 \/ b[q] = 255 \/ q + b[q] > Len(b) THEN 0 ELSE q + 1 + b[q]
+    ELSE 0
+PubPortion(b) == SubSeq(b, 1, PubEnd(b) - 1)
+IsPublicKeyBody(b) == PubEnd(b) = Len(b) + 1
+KeyAlg(b) == b[6]
+KeyCreated(b) == SubSeq(b, 2, 5)
+\* all primary / subkey packet bodies (public portion) of a transferable key, in order
+KeyBodies(blob) ==
+  LET r == Split(blob)
+      ks == SelectSeq(r.pkts, LAMBDA k : k.tag \in {5, 6, 7, 14}) IN
+  [j \in 1..Len(ks) |-> PubPortion(ks[j].body)]
 =============================================================================
